@@ -48,6 +48,7 @@ const (
 	iEold
 	iEexp
 	iEfut
+	iEcur
 )
 
 func buildItems() {
@@ -88,12 +89,15 @@ func buildItems() {
 	old := mk(2, 3, kproto.PrecommitType, fx.blockTime[3])
 	exp := mk(1, 2, kproto.PrevoteType, fx.blockTime[2])
 	fut := mk(1, 20, kproto.PrevoteType, genesisTime.Add(time.Hour))
+	// evidence of the height consensus is working on at the base head (6), as another node builds it once
+	// block 6 is committed: block 6's time, the set of height 6
+	cur := mk(2, baseHeadB+1, kproto.PrecommitType, fx.blockTime[baseHeadB+1])
 	for _, x := range []struct {
 		n     string
 		e     *types.DuplicateVoteEvidence
 		plain bool
 	}{{"E1", e1, true}, {"E2", e2, true}, {"E1idx", idx, false}, {"E1swap", swap, false}, {sigName, sig, false}, {"E1type", typ, false},
-		{"Eold", old, true}, {"Eexp", exp, true}, {"Efut", fut, true}} {
+		{"Eold", old, true}, {"Eexp", exp, true}, {"Efut", fut, true}, {"Ecur", cur, true}} {
 		it := &item{Name: x.n, Ev: x.e, Class: equivocationID(x.e, chainID), Hash: x.e.Hash().Hex(), Plain: x.plain, Height: x.e.Height()}
 		w, err := roundTrip(x.e)
 		if err == nil {
@@ -108,6 +112,42 @@ func buildItems() {
 		items = append(items, it)
 		itemByHash[normHash(it.Hash)] = it
 	}
+	for _, it := range items {
+		for rep := 0; rep < nReps; rep++ {
+			reportName[normHash(reportOf(it, rep).Hash().Hex())] = it.Name + repSuffix[rep]
+		}
+	}
+}
+
+// What consensus hands to AddEvidenceFromConsensus is a REPORT: the two conflicting votes wrapped by
+// tryAddVote with whatever time and validator set consensus had at hand. rep 0: the canonical wrapping;
+// rep 1: the time tryAddVote has for a conflicting precommit that arrives after the height was decided
+// (the median of that height's commit = the NEXT block's time); rep 2: that time and the powers of the
+// other validator set (cs.Validators is the set of the height consensus works on, not of the vote's).
+const nReps = 3
+
+var repSuffix = [nReps]string{"", "@late", "@late+set"}
+var reportName = map[string]string{}
+
+func reportOf(it *item, rep int) *types.DuplicateVoteEvidence {
+	e := cloneEv(it.Ev)
+	if rep >= 1 {
+		if t, ok := fx.blockTime[it.Height+1]; ok {
+			e.Timestamp = t
+		} else {
+			e.Timestamp = e.Timestamp.Add(time.Second)
+		}
+	}
+	if rep >= 2 {
+		who := whoOf(e.VoteA.ValidatorAddress)
+		e.TotalVotingPower = totalOf(otherSetOf(it.Height))
+		if p := powerIn(otherSetOf(it.Height), who); p != 0 {
+			e.ValidatorPower = p
+		} else {
+			e.ValidatorPower++
+		}
+	}
+	return e
 }
 
 // ---- tokens
@@ -115,12 +155,13 @@ func buildItems() {
 type token struct {
 	Kind string // add | cons | check | commit | restart
 	Is   []int
+	Rep  int // cons only: which report of the item's two votes (see reportOf)
 }
 
 func (t token) String() string {
 	var ns []string
 	for _, i := range t.Is {
-		ns = append(ns, items[i].Name)
+		ns = append(ns, items[i].Name+repSuffix[t.Rep])
 	}
 	return fmt.Sprintf("%s(%s)", t.Kind, strings.Join(ns, ","))
 }
@@ -128,25 +169,31 @@ func (t token) String() string {
 func alphabet() []token {
 	var ts []token
 	for i := range items {
-		ts = append(ts, token{"add", []int{i}})
+		ts = append(ts, token{Kind: "add", Is: []int{i}})
 	}
-	for _, i := range []int{iE1, iE2} {
-		ts = append(ts, token{"cons", []int{i}})
+	reports := [][2]int{{iE1, 0}, {iE1, 1}, {iEcur, 0}}
+	if r.Thorough() {
+		reports = [][2]int{{iE1, 0}, {iE1, 1}, {iE1, 2}, {iE2, 0}, {iE2, 1}, {iEcur, 0}, {iEcur, 1}}
+	}
+	for _, c := range reports {
+		ts = append(ts, token{Kind: "cons", Is: []int{c[0]}, Rep: c[1]})
 	}
 	for i := range items {
-		ts = append(ts, token{"check", []int{i}})
+		ts = append(ts, token{Kind: "check", Is: []int{i}})
 	}
 	for _, p := range [][]int{{iE1, iE2}, {iE1, iE1}, {iE1, iE1idx}, {iE1, iE1type}} {
-		ts = append(ts, token{"check", p})
+		ts = append(ts, token{Kind: "check", Is: p})
 	}
-	commits := [][]int{{}, {iE1}, {iE2}, {iE1idx}, {iEold}, {iE1, iE2}}
+	// a block may carry ANY evidence known to the search, built canonically as another node would have
+	// produced it - whether this pool has it pending, only as a report of its consensus, or not at all
+	commits := [][]int{{}, {iE1}, {iE2}, {iE1sig}, {iE1type}, {iEold}, {iEcur}, {iE1, iE2}}
 	if r.Thorough() {
-		commits = append(commits, []int{iE1type}, []int{iE1sig}, []int{iE1, iE1idx}, []int{iE1, iE1})
+		commits = append(commits, []int{iE1idx}, []int{iEexp}, []int{iEfut}, []int{iE1, iEcur}, []int{iE1, iE1idx}, []int{iE1, iE1}, []int{iE1, iE1type}, []int{iE2, iEcur})
 	}
 	for _, s := range commits {
-		ts = append(ts, token{"commit", s})
+		ts = append(ts, token{Kind: "commit", Is: s})
 	}
-	ts = append(ts, token{"restart", nil})
+	ts = append(ts, token{Kind: "restart"})
 	return ts
 }
 
@@ -306,9 +353,12 @@ func committedHashes(p *evidence.Pool) []string {
 	return out
 }
 
-// key: every field of the pool that an operation of the alphabet reads. The gossip list (evidenceList)
-// is left out: only the reactor reads it, none of add / cons / check / commit / restart / PendingEvidence
-// depends on its content, so two states that differ only there have the same futures here.
+// key: every in-memory field of the pool (size, pruning point, state height, the buffered reports of
+// consensus as a set and - thorough tier - the gossip list as a set) plus both key spaces of its database
+// and the model's open obligations. No operation of the alphabet READS the gossip list, so leaving it out
+// (quick tier) merges only states with equal futures as far as pending / committed / accepted go; the
+// oracle "the gossip list holds nothing committed" is then evaluated on the representative history of each
+// state, which is the smallest one and therefore prefers add(e) (listed) over check(e) (stored, not listed).
 func (l *live) key() string {
 	v := evidence.VerifC19Inspect(l.d.pool)
 	pn, _, unk := pendingItems(l.d.pool)
@@ -316,14 +366,38 @@ func (l *live) key() string {
 	for _, h := range committedHashes(l.d.pool) {
 		cs = append(cs, itemName(h))
 	}
-	return fmt.Sprintf("H%d|P%v%v|C%v|S%d|ph%d|pt%d|sh%d|O[%s]", l.d.state.LastBlockHeight, pn, unk, cs, v.Size, v.PruningHeight, v.PruningTime.UnixNano(), v.StateHeight, l.m.owedString())
+	list := []string{"-"}
+	if r.Thorough() {
+		list = nameSet(v.List, itemName)
+	}
+	return fmt.Sprintf("H%d|P%v%v|C%v|S%d|ph%d|pt%d|sh%d|O[%s]|L%v|B%v", l.d.state.LastBlockHeight, pn, unk, cs, v.Size, v.PruningHeight, v.PruningTime.UnixNano(), v.StateHeight,
+		l.m.owedString(), list, nameSet(v.Buffered, func(h string) string {
+			if n, ok := reportName[normHash(h)]; ok {
+				return n
+			}
+			return "?" + h
+		}))
+}
+
+func nameSet(evs []types.Evidence, name func(string) string) []string {
+	u := map[string]bool{}
+	for _, e := range evs {
+		u[name(e.Hash().Hex())] = true
+	}
+	var out []string
+	for k := range u {
+		out = append(out, k)
+	}
+	sort.Strings(out)
+	return out
 }
 
 // enabled: AddEvidenceFromConsensus is only called by a consensus that is working on height H+1, with
 // evidence of that height or (late precommits) of height H.
 func (l *live) enabled(tok token) bool {
 	if tok.Kind == "cons" {
-		return items[tok.Is[0]].Height >= l.m.H
+		h := items[tok.Is[0]].Height
+		return h >= l.m.H && h <= l.m.H+1
 	}
 	return true
 }
@@ -372,7 +446,11 @@ func (l *live) apply(tok token, hist []string, judge bool) (panicked string) {
 				err = d.pool.AddEvidence(it.Wire)
 			}
 		} else {
-			err = d.pool.AddEvidenceFromConsensus(it.Ev)
+			err = d.pool.AddEvidenceFromConsensus(reportOf(it, tok.Rep))
+			// evidence of the height being decided becomes acceptable with that height's block
+			if it.Height == m.H+1 && len(m.Classes[it.Class]) == 0 {
+				ok = true
+			}
 		}
 		_, after, _ := pendingItems(d.pool)
 		if executed && !after[i] && !before[i] && ok && it.Plain {
@@ -457,10 +535,17 @@ func (l *live) apply(tok token, hist []string, judge bool) (panicked string) {
 		}
 		_, nowPending, _ := pendingItems(d.pool)
 		for i := range m.Owed {
-			if !nowPending[i] && !committedNow[i] && !m.expired(i) && len(m.Classes[items[i].Class]) == 0 {
+			if okNow, _ := m.acceptable(i); okNow && !nowPending[i] && !committedNow[i] {
 				report("consensus-evidence-not-kept", "consensus", fmt.Sprintf("%s was handed over by consensus and is still not pending after block %d was committed", items[i].Name, m.H))
 			}
 			delete(m.Owed, i)
+		}
+		// what the commit itself made pending (reports of consensus turned into evidence) is judged like
+		// any other newcomer: acceptable at the new height, its double-signing not on the chain
+		for j := range nowPending {
+			if !before[j] && !m.Hashes[normHash(items[j].Hash)] {
+				newcomer(j, false)
+			}
 		}
 	case "restart":
 		cb := committedHashes(d.pool)
@@ -495,6 +580,11 @@ func (l *live) apply(tok token, hist []string, judge bool) (panicked string) {
 	for i := range after {
 		if !listed[i] {
 			report("accepted-evidence-lost", "not-listed", fmt.Sprintf("after %s the pending key of %s exists but PendingEvidence does not list it (Size()=%d)", tok, items[i].Name, d.pool.Size()))
+		}
+	}
+	for _, e := range evidence.VerifC19Inspect(d.pool).List {
+		if h := normHash(e.Hash().Hex()); m.Hashes[h] {
+			report("gossip-list-includes-committed", "same-evidence", fmt.Sprintf("after %s the gossip list (what the reactor sends to peers) holds %s, which is committed", tok, itemName(h)))
 		}
 	}
 	for i := range listed {
